@@ -74,6 +74,10 @@ SHAPES = [
     ('t1025bin', dict(length=1025, tag=rtrace.TAG_BIN, h=999997)),
     ('t1028bin', dict(length=1028, tag=rtrace.TAG_BIN, h=1000010)),
     ('t2000othertag', dict(length=2000, tag=0x1111, h=500005)),
+    # only the exact binary tag makes an entry binary: tags sharing one of its bytes are ordinary entries with arguments
+    ('t8tagDD', dict(length=8, tag=0x4444, h=200002)),
+    ('t8tag00D', dict(length=8, tag=0x0044, h=200002)),
+    ('t8tagF0', dict(length=8, tag=0x4600, h=200002)),
 ]
 
 
